@@ -305,6 +305,11 @@ def execute(sc):
         if d is not None:
             cls, key, text = d
             key = dict(key, mode=sc["modes"][0].split(":")[0])
+            if cls == "protocol_decision_differs":
+                # context: the first line of the client's stream, judged byte-wise by next_layer's raw-TCP heuristic
+                first_line = H.B(sc["clients"][0]["steps"][0]["data"]).split(b"\n", 1)[0].rstrip(b"\r")
+                key["first_line"] = ("control_char" if re.search(rb"[\x00-\x1f\x7f]", first_line) else
+                                     "lowercase_method" if not re.match(rb"[A-Z]{3}", first_line) else "plain")
             if cls == "flow_count_differs":
                 # context: an empty line in front of a pipelined request line (after the blank line ending the
                 # previous message)?
